@@ -18,18 +18,28 @@ the outcome is deterministic for a seed and independent of cache state left by o
 import math
 import multiprocessing as mp
 import sys, os, time
+if os.environ.get("PYTHONHASHSEED") != "0":     # set/dict iteration order of str keys must not vary between runs
+    os.environ["PYTHONHASHSEED"] = "0"
+    os.execv(sys.executable, [sys.executable] + sys.argv)
 sys.path.insert(0, os.path.dirname(os.path.abspath(__file__)))
 from common import Run, replay_script, safe
 
 import numpy as np
 import sympy
-import unyt
-from unyt import Unit, UnitRegistry, UnitSystem, unyt_array, unyt_quantity
-from unyt import dimensions as dm
-from unyt._unit_lookup_table import (default_unit_symbol_lut as LUT, unit_prefixes,
-                                     default_unit_name_alternatives as ALT)
-from unyt.exceptions import UnitsNotReducible, IllDefinedUnitSystem
-from unyt.unit_systems import unit_system_registry as USR
+try:
+    import unyt
+    from unyt import Unit, UnitRegistry, UnitSystem, unyt_array, unyt_quantity
+    from unyt import dimensions as dm
+    from unyt._unit_lookup_table import (default_unit_symbol_lut as LUT, unit_prefixes,
+                                         default_unit_name_alternatives as ALT)
+    from unyt.exceptions import UnitsNotReducible, IllDefinedUnitSystem
+    from unyt.unit_systems import unit_system_registry as USR
+except Exception as _e:  # the package builds its constants through in_base/in_cgs at import time
+    _R = Run("C10", "import", "import")
+    _R.case("C10[import]")
+    _R.fail("C10[import]", "importing unyt failed: %r" % (_e,),
+            "import sys\ntry:\n    import unyt\nexcept Exception as e:\n    print(repr(e)); sys.exit(1)\nsys.exit(0)\n")
+    _R.finish()
 
 R = Run("C10",
         "systems: 7 built-in + pinned user-defined (strings / alias names / Unit objects / quantities / "
@@ -39,8 +49,8 @@ R = Run("C10",
         "float/int scalar and array, float32/int32 arrays; non-trivial = (system, unit, data kind) distinct "
         "and the unit is not already the system's unit for its dimension",
         "atoms x built-in systems x 6 data kinds exhaustive; compounds and user systems sampled (quick: "
-        "~90 pinned + 150 random compounds, 10 pinned + 8 random user systems; thorough: 3000 random "
-        "compounds, 80 random systems); base-unit spellings: every table atom of each base dimension x "
+        "~90 pinned + 150 random compounds, 10 pinned + 8 random user systems; thorough: 2500 random "
+        "compounds, 60 random systems); base-unit spellings: every table atom of each base dimension x "
         "symbol/alias/Unit/quantity; wrong-dimension base units: every slot x every table atom")
 
 C_CM = 2.99792458e10
@@ -99,9 +109,17 @@ def atom_names(u):
 
 
 def sig(u):
-    """(coefficient, {atom: exponent}) of a unit expression"""
-    c, m = u.expr.as_coeff_Mul()
-    return float(c), {str(k): round(float(v), 9) for k, v in m.as_powers_dict().items() if k != 1}
+    """(numeric coefficient, {atom: exponent}) of a unit expression; numeric factors of any
+    form (3.0, 2**(5/6), sqrt(21)/45 ...) are folded into the coefficient"""
+    c = 1.0
+    pw = {}
+    for f in sympy.Mul.make_args(u.expr):
+        if f.is_number:
+            c *= float(f)
+        else:
+            b, e = f.as_base_exp()
+            pw[str(b)] = round(pw.get(str(b), 0.0) + float(e), 9)
+    return c, {k: v for k, v in pw.items() if v != 0}
 
 
 def same_unit(u, v):
@@ -274,7 +292,7 @@ def unit_class(u):
 
 
 def family(ucls, sp):
-    if "-em-atom" in ucls and not sp.cls.startswith("user-late"):
+    if "-em-atom" in ucls and not sp.cls.startswith(("user-late", "user-rereg")):
         s = sp.cls if sp.cls in ("cgs", "mks") else ("current" if sp.has_current else "nocurrent")
     else:
         s = sp.cls
@@ -324,8 +342,9 @@ def replay_for(sp, ustr, kind, body):
     reg = ", registry=reg" if sp.registry is not None else ""
     pre += "q = %s(%s, unyt.Unit(%r%s))\n" % (ctor, vsrc, ustr, reg)
     pre += "SYS = %s\n" % sp.ref_src
-    pre += ("def sig(u):\n    c, m = u.expr.as_coeff_Mul()\n"
-            "    return {str(k): round(float(v), 9) for k, v in m.as_powers_dict().items() if k != 1}, float(c)\n"
+    pre += ("import sympy\ndef sig(u):\n    c, pw = 1.0, {}\n    for f in sympy.Mul.make_args(u.expr):\n"
+            "        if f.is_number:\n            c *= float(f)\n        else:\n            b, e = f.as_base_exp()\n"
+            "            pw[str(b)] = round(pw.get(str(b), 0.0) + float(e), 9)\n    return pw, c\n"
             "def same(u, v):\n    return sig(u)[0] == sig(v)[0] and abs(sig(u)[1] - sig(v)[1]) <= 1e-12*abs(sig(v)[1])\n")
     return replay_script(pre + body)
 
@@ -617,7 +636,7 @@ PINNED_USERS = [
     dict(name="c10_astro", base={dm.length: "km", dm.mass: "Msun", dm.time: "Gyr"}),
     dict(name="c10_atomic", base={dm.length: "nm", dm.mass: "mp", dm.time: "fs", dm.temperature: "nK",
                                   dm.angle: "rad"}, declared={"energy": "eV"}),
-    dict(name="c10_unitobj", base={dm.length: "Mpc", dm.mass: "Msun", dm.time: "s"}, how="unit"),
+    dict(name="C10_UnitObj", base={dm.length: "Mpc", dm.mass: "Msun", dm.time: "s"}, how="unit"),
     dict(name="c10_quant", base={dm.length: "Mpc", dm.mass: "Msun", dm.time: "s", dm.current_mks: "A"},
          how="quantity", coef={dm.length: 3.0, dm.mass: 0.8, dm.time: 42.0, dm.current_mks: 0.5}),
     dict(name="c10_alias", base={dm.length: "kilometer", dm.mass: "gram", dm.time: "minute",
@@ -653,9 +672,7 @@ def random_user_args(rng, i):
                 continue
             if r < 0.6:
                 continue
-        # delta_degC / delta_degF as Unit objects are a known rejected spelling (exhaustively covered by
-        # task_spellings under its own key); keep the random systems constructible
-        cands = [a for a in by_dim[d] if a not in OFFSET_ATOMS and not a.startswith("delta_")]
+        cands = [a for a in by_dim[d] if a not in OFFSET_ATOMS]
         a = rng.choice(cands)
         if LUT[a][4] and rng.random() < 0.5:
             a = rng.choice(list(unit_prefixes)) + a
@@ -709,7 +726,9 @@ def task_user(args, compounds, thorough, pinned):
     sp, exc = make_user(**args)
     C.case("C10[construct|%s]" % sp.label)
     if exc is not None:
-        fail("C10[construct-rejects-valid:%s]" % sp.cls, "valid user system %s rejected: %r\n%s" % (
+        # same key family as task_spellings (which enumerates the spellings exhaustively)
+        form = "unit-object" if args.get("how") in ("unit", "quantity") else "symbol"
+        fail("C10[construct-rejects-valid:%s]" % form, "valid user system %s rejected: %r\n%s" % (
             sp.label, exc, sp.build),
             replay_script("try:\n" + "".join("    " + l + "\n" for l in sp.build.splitlines()) +
                           "except Exception as e:\n    print(repr(e)); sys.exit(1)\n"))
@@ -789,6 +808,30 @@ def task_late_override():
                    {dimname: over}, label=name + "+late",
                    build=build + "".join("(1.0*unyt.Unit(%r)).in_base(%r)\n" % (p, name) for p in probes)
                    + "S[%r] = %r\n" % (dimname, over))
+        run_units(sp2, probes, ["f-scalar"])
+
+
+def task_reregister():
+    """a system constructed again under an existing name replaces the old one for every route"""
+    for name, b1, b2 in (("c10_rereg", ("km", "kg", "hr"), ("cm", "g", "min")),
+                         ("c10_rereg_cur", ("m", "kg", "s"), ("mm", "g", "ms"))):
+        try:
+            UnitSystem(name, *b1)
+        except Exception as e:  # noqa
+            C.notes.append("reregister: %r" % e)
+            continue
+        build1 = "unyt.UnitSystem(%r, %r, %r, %r)\n" % ((name,) + b1)
+        probes = ["erg/s", "mile", "T", "mT", "C", "kC", "J/K", "N", "V", "Wb"]
+        sp = Spec("user", name, dict(zip(BASE_DIMS[:3], b1)), label=name, build="S = " + build1)
+        run_units(sp, probes, [], ["f-scalar"])
+        try:
+            UnitSystem(name, *b2)
+        except Exception as e:  # noqa
+            C.notes.append("reregister: %r" % e)
+            continue
+        sp2 = Spec("user-reregistered", name, dict(zip(BASE_DIMS[:3], b2)), label=name + "+again",
+                   build=build1 + "".join("(1.0*unyt.Unit(%r)).in_base(%r)\n" % (p, name) for p in probes)
+                   + "S = unyt.UnitSystem(%r, %r, %r, %r)\n" % ((name,) + b2))
         run_units(sp2, probes, ["f-scalar"])
 
 
@@ -904,8 +947,8 @@ def run_task(i):
 def main():
     rng = R.rng
     thorough = R.thorough
-    n_comp = 3000 if thorough else 150
-    n_sys = 80 if thorough else 8
+    n_comp = 2500 if thorough else 150
+    n_sys = 60 if thorough else 8
     compounds = list(PINNED_COMPOUNDS)
     seen = set(compounds)
     while len(compounds) < len(PINNED_COMPOUNDS) + n_comp:
@@ -927,6 +970,7 @@ def main():
     for which in ("code", "code-obj", "code-ds", "code-default", "cgs-default"):
         TASKS.append((task_code, (which, compounds, thorough)))
     TASKS.append((task_late_override, ()))
+    TASKS.append((task_reregister, ()))
     TASKS.append((task_spellings, ()))
     TASKS.append((task_wrong_dimension, (thorough,)))
 
